@@ -2,7 +2,8 @@
    Statements only; every proof is [exact <lemma of Proofs/>]. *)
 From Coq Require Import List Arith ZArith Bool.
 Import ListNotations.
-From Eudoxia Require Import Model.Types Model.Dag Model.Lifecycle Proofs.LifecycleFacts.
+From Eudoxia Require Import Model.Types Model.Dag Model.Lifecycle Model.Container Model.Pool Model.Executor
+  Proofs.LifecycleFacts Proofs.ExecLifeFacts.
 
 (* The table the code consults is exactly the documented machine (the eight edges of the property
    text). Bridge obligation [valid_transitions] ties [valid_table] to the source on every run. *)
@@ -41,6 +42,48 @@ Theorem C02_completed_final : forall S w w' o,
   steps S w w' -> st_of w o = Completed -> st_of w' o = Completed.
 Proof. exact completed_final. Qed.
 Print Assumptions C02_completed_final.
+
+(* Executor level, every run under arbitrary commands: a completed operator never changes state again *)
+Theorem C02_exec_completed_final : forall C n cpu ram s s' o,
+  reach_exec_r C (init_estate C n cpu ram) s -> reach_exec_r C s s' ->
+  st_of (e_world s) o = Completed -> st_of (e_world s') o = Completed.
+Proof. exact exec_completed_final_run. Qed.
+Print Assumptions C02_exec_completed_final.
+
+(* ... and is never handed to a container again: a batch containing an operator that is Assigned,
+   Running, Suspending or Completed is rejected *)
+Theorem C02_no_reassign : forall C s ss asgs a o,
+  In a asgs -> In o (a_ops a) -> held (st_of (e_world s) o) ->
+  exists e, exec_step C s ss asgs = Err e.
+Proof. exact exec_step_rejects_reassign. Qed.
+Print Assumptions C02_no_reassign.
+
+Theorem C02_no_reassign_exact : forall C w a l1 o l2 w1,
+  args_ok a -> a_ops a = l1 ++ o :: l2 ->
+  transition_all (cf_static C) w l1 Assigned = Ok w1 ->
+  held (st_of w o) -> mk_assignment C w a = Err ETransition.
+Proof. exact no_reassign_held_exact. Qed.
+Print Assumptions C02_no_reassign_exact.
+
+(* at any moment an operator belongs to at most one live container: the unfinished suffixes of all
+   live containers (running and suspending, all pools) are duplicate-free and pairwise disjoint, and
+   every operator in them is Assigned, Running or Suspending *)
+Theorem C02_unique_owner : forall C n cpu ram s,
+  reach_exec_r C (init_estate C n cpu ram) s -> NoDup (sown s).
+Proof. exact unique_owner. Qed.
+Print Assumptions C02_unique_owner.
+
+Theorem C02_unique_owner_pairwise : forall C n cpu ram s l1 c1 l2 c2 l3 o,
+  reach_exec_r C (init_estate C n cpu ram) s ->
+  live_containers s = l1 ++ c1 :: l2 ++ c2 :: l3 ->
+  In o (own c1) -> In o (own c2) -> False.
+Proof. exact unique_owner_pairwise. Qed.
+Print Assumptions C02_unique_owner_pairwise.
+
+Theorem C02_owned_busy : forall C n cpu ram s o,
+  reach_exec_r C (init_estate C n cpu ram) s -> In o (sown s) -> busy (st_of (e_world s) o).
+Proof. exact owned_busy. Qed.
+Print Assumptions C02_owned_busy.
 
 (* non-vacuity: a concrete two-operator pipeline runs A then B to completion through [steps] *)
 Example C02_witness :
